@@ -70,14 +70,19 @@ def run(ctx):
     from .. import rules_lexer as RL
     ctx.rule('R7.7', 'no caller can obtain a half-initialised default lexer (lock discipline of get_default_instance)', floor=5)
     RL.check_singleton_lock(ctx, 'R7.7')
+    # the accepted None / bounds sites (ACCEPTED_NULL, ACCEPTED_BOUNDS) are argued from what the navigation helpers return
+    # ("the group ends with its closing token", "token_prev(len) is the last child"): validate those helpers against the model
+    from .. import rules_base as RB
+    ctx.rule('R7.B', 'base model: the navigation helpers and token predicates return what the accepted-site arguments assume', floor=1)
+    RB.check_base_model(ctx, 'R7.B', parts=('contains', 'flags', 'match', 'imt', 'nav'))
     # R7.6
     before = len(ctx.obs)
-    for r in ('R15.1', 'R15.2', 'R15.3', 'R15.4', 'R15.5', 'R15.6'):
+    for r in ('R15.1', 'R15.2', 'R15.3', 'R15.4', 'R15.5', 'R15.6', 'R15.7'):
         ctx.rule(r, '', floor=0)
     c15.run(ctx)
     for o in ctx.obs[before:]:
         o.rule = 'R7.6'
-    for r in ('R15.1', 'R15.2', 'R15.3', 'R15.4', 'R15.5', 'R15.6'):
+    for r in ('R15.1', 'R15.2', 'R15.3', 'R15.4', 'R15.5', 'R15.6', 'R15.7'):
         ctx.rules.pop(r, None)
         ctx.floors.pop(r, None)
 
